@@ -28,6 +28,9 @@ type icase struct {
 	CloseAt       int64   `json:"close_at"`                  // -1: never; else Close is issued after this much virtual time
 	Panic         bool    `json:"panic"`                     // the event handler panics
 	CloseInActive bool    `json:"close_in_active,omitempty"` // a handler behind the idle handler closes the channel inside HandleActive
+	// BadWrites: the outbound messages are of a type the head of the pipeline refuses (the write passes
+	// the idle handler and then fails with an exception, which the application consumes)
+	BadWrites bool `json:"bad_writes,omitempty"`
 }
 
 func (c icase) name() string {
@@ -47,6 +50,9 @@ func (c icase) name() string {
 	}
 	if c.OnIdle != "" {
 		s += "/on-idle=" + c.OnIdle
+	}
+	if c.BadWrites {
+		s += "/writes-refused-below-the-handler"
 	}
 	return s
 }
@@ -111,8 +117,9 @@ type preW struct{ o *obs }
 
 func (p *preW) HandleWrite(ctx netty.OutboundContext, m netty.Message) {
 	entry := now()
+	// (recorded also when the write fails further down: it has passed the idle handler by then)
+	defer func() { p.o.passed = append(p.o.passed, stamp{entry.t, now().step, now().t}) }()
 	ctx.HandleWrite(m)
-	p.o.passed = append(p.o.passed, stamp{entry.t, now().step, now().t})
 }
 
 var errEventBoom = errors.New("event handler failure")
@@ -161,6 +168,9 @@ func (s *sink) HandleException(ctx netty.ExceptionContext, ex netty.Exception) {
 		s.o.excs = append(s.o.excs, ex)
 		return // consumed
 	}
+	if s.o.ic.BadWrites && s.o.inactive == nil && !errors.Is(ex, io.EOF) && !strings.Contains(ex.Error(), "closed") {
+		return // a refused outbound message: logged and consumed, the channel stays open
+	}
 	ctx.HandleException(ex) // read failures after close etc.
 }
 
@@ -191,6 +201,8 @@ func buildScenario(ic icase, bound int) *explore.Scenario {
 					vsched.Sleep(g)
 					if ic.Kind == "read" {
 						e.T.Feed([]byte{byte('a' + i)})
+					} else if ic.BadWrites {
+						e.Ch.Write(struct{ n int }{i}) // not a message type the head accepts
 					} else {
 						e.Ch.Write([]byte{byte('a' + i)})
 					}
@@ -342,6 +354,9 @@ func cases(thorough bool) []icase {
 			if thorough {
 				out = append(out, icase{Kind: kind, Gaps: s, CloseAt: 3 * T / 2, Panic: true})
 			}
+			if kind == "write" && len(s) >= 1 {
+				out = append(out, icase{Kind: kind, Gaps: s, CloseAt: -1, BadWrites: true})
+			}
 		}
 	}
 	return out
@@ -350,7 +365,7 @@ func cases(thorough bool) []icase {
 func main() {
 	explore.Main(explore.Spec{
 		Property: "C20",
-		Rule:     "read-idle and write-idle handlers (idle time T = 1s) on virtual time: a peer goroutine issues 0-2 (thorough 3) messages separated by gaps from {0, T/16 (burst), T/2, T, 3T/2}; an observer keeps an open channel under watch until 4.5T; Close at {never, T/2, T, 3T/2, 5T/2} or from inside a downstream HandleActive; event handlers that panic, answer with a heartbeat write, or close the channel; timer callbacks are controlled goroutines; all interleavings up to 2 (thorough 3) deviations (preemptions + early clock ticks), horizon 5T. Oracle: an idle event delivered by a callback that started at step s and time t needs t - t_m >= T for every message whose passage through the idle handler had completed before s, and t - t_active >= T; on tick-free executions silence of k*T produces >= k events; after inactive has passed the handler at most the one callback already in flight delivers an event, no callback starts afterwards, and no timer stays armed; one exception per panicking event and no goroutine dies. distinct = distinct timelines",
+		Rule:     "read-idle and write-idle handlers (idle time T = 1s) on virtual time: a peer goroutine issues 0-2 (thorough 3) messages separated by gaps from {0, T/16 (burst), T/2, T, 3T/2}; an observer keeps an open channel under watch until 4.5T; Close at {never, T/2, T, 3T/2, 5T/2} or from inside a downstream HandleActive; event handlers that panic, answer with a heartbeat write, or close the channel; outbound messages that pass the write-idle handler and are then refused by the head (exception consumed); timer callbacks are controlled goroutines; all interleavings up to 2 (thorough 3) deviations (preemptions + early clock ticks), horizon 5T. Oracle: an idle event delivered by a callback that started at step s and time t needs t - t_m >= T for every message whose passage through the idle handler had completed before s, and t - t_active >= T; on tick-free executions silence of k*T produces >= k events; after inactive has passed the handler at most the one callback already in flight delivers an event, no callback starts afterwards, and no timer stays armed; one exception per panicking event and no goroutine dies. distinct = distinct timelines",
 		Assume:   []string{"'passed the handler' is read as 'the handler's processing of the message completed' (messages still in flight when the callback started are disregarded - the weakest reading)", "virtual time; a callback may be delayed arbitrarily by scheduling"},
 		Build: func(tier string) []*explore.Scenario {
 			th := tier == "thorough"
